@@ -38,7 +38,7 @@ CLAIMED = {
         level="exploration", design="§6 C12",
         technique="deterministic simulation: the real AsyncWebsocketApp::run (poll loop, handler pool, front App, linked and unlinked) under the humsim scheduler with reference WebSocket clients, virtual-time poll intervals and heartbeat timeouts, partitioned (silent) peers, an external AsyncSender thread, shutdown signal",
         text="Seeded scenarios of 1..8 clients (connect times, plain/unicast-requesting/broadcast-requesting messages incl. fragmented ones and bursts within one poll interval, pings, endings by Close / FIN / silence / staying), external unicasts and broadcasts, handler pools 1..8, poll 1..10 ms, heartbeat on/off, under seeded schedules. Oracle over the handler event log and each client's received frames: connect exactly once, every owed message dispatched exactly once, disconnect exactly once per closed client (Close frame or heartbeat timeout) and never for a live one, per-client order with a one-thread pool, unicast only to its addressee, broadcast never twice and exactly once to clients connected throughout, run returns within poll interval + 1 s of the shutdown signal.",
-        note="Trusted: humsim scheduler/clock/TCP; fixed-hasher iteration order of the streams map; poll interval 0/None not explored; ordering asserted strictly only with one handler thread."),
+        note="Trusted: humsim scheduler/clock/TCP; iteration order of the streams map keyed per run from the entropy stream; a spinning poll loop (no interval) only under fair schedules; ordering asserted strictly only with one handler thread; messages of a client that closed its socket outright are owed at most once."),
     "C16": dict(
         level="exploration", design="§6 C16",
         technique="deterministic simulation: 1..8 threads through the real RwLock<Cache> under the humsim scheduler with a virtual wall clock (jumps onto second boundaries and age limits); linearisation by in-lock sequence numbers; reference model = the property; handler level over real files",
